@@ -731,15 +731,19 @@ func Run(main func(), cfg RunConfig) Result {
 		choice := 0
 		if len(opts) > 1 {
 			i := len(res.Choices)
-			key := s.Key()
+			var key uint64
 			if i < len(cfg.Prefix) {
+				// replaying: the state was keyed when this prefix was generated
 				choice = cfg.Prefix[i]
 				if choice >= len(opts) {
 					panic(fmt.Sprintf("verifrt: replay divergence at point %d: choice %d of %d options", i, choice, len(opts)))
 				}
-			} else if cfg.Seen != nil && cfg.Seen(i, key, len(opts)) {
-				res.Cut = true
-				break
+			} else {
+				key = s.Key()
+				if cfg.Seen != nil && cfg.Seen(i, key, len(opts)) {
+					res.Cut = true
+					break
+				}
 			}
 			res.Choices = append(res.Choices, choice)
 			res.NOpts = append(res.NOpts, len(opts))
